@@ -75,6 +75,28 @@ def ob_air_array(which, n):
                       solver_timeout_ms=300000, purify_div=False, incremental_ms=2000, fresh_strategy='rlimit-first')
 
 
+def ob_air_intarray(which, n):
+    """integer-typed wavelength arrays (a spectrum's integer Angstrom grid) must give the float answer too"""
+    def fn(ctx):
+        from pydl.goddard.astro import airtovac, vactoair
+        from pathsym.core import Z
+        f = airtovac if which == 'a2v' else vactoair
+        ws = [ctx.int('w%d' % i) for i in range(n)]
+        for w in ws:
+            ctx.add(z3.And(w.v >= 1400, w.v <= 300000))
+        d = {'fn': 'air_intarray', 'which': which, 'n': n}
+        ctx.detail = d
+        ctx.ints_as_Z = True
+        arr = symnp._build_object([Z(w.v) for w in ws])
+        out = f(arr)
+        ctx.require(out.shape == (n,), 'integer array form: shape', d)
+        for i in range(n):
+            ref = f(R(z3.ToReal(ws[i].v)))
+            ctx.require(zt(R.lift(out[i])) == zt(R.lift(ref)), 'integer array form agrees with the float scalar form element by element', dict(d, i=i))
+    return Obligation('air/vacuum integer array %s n=%d' % (which, n), fn, bounds='%d integer wavelengths in [1400 A, 30 micron]' % n,
+                      solver_timeout_ms=300000, purify_div=False, incremental_ms=2000, fresh_strategy='rlimit-first')
+
+
 CORR = [-0.042, 0.036, 0.015, 0.013, -0.002]
 
 
@@ -164,6 +186,7 @@ def obligations(tier, seed):
     q = tier == 'quick'
     obs = [ob_air_scalar('a2v'), ob_air_scalar('v2a')]
     for which in ('a2v', 'v2a'):
+        obs.append(ob_air_intarray(which, 1))
         obs.append(ob_air_array(which, 2))
         if not q:
             obs.append(ob_air_array(which, 3))
@@ -214,6 +237,12 @@ def replay(rec):
         if (ws != keep).any():
             return True
         return any(abs(out[i] - f(float(keep[i]))) > 1e-9 * max(1.0, abs(keep[i])) for i in range(d['n']))
+    if fn == 'air_intarray':
+        from pydl.goddard.astro import airtovac, vactoair
+        f = airtovac if d['which'] == 'a2v' else vactoair
+        ws = np.array([int(inp.get('w%d' % i, 3000)) for i in range(d['n'])], dtype='i8')
+        out = f(ws)
+        return any(abs(float(out[i]) - f(float(ws[i]))) > 1e-9 * max(1.0, abs(float(ws[i]))) for i in range(d['n']))
     if fn == 'flux2ab':
         from pydl.photoop.sdssio import sdssflux2ab
         rows = d['rows']
